@@ -4,6 +4,7 @@ import re
 
 import gens_split as G
 import splitcommon as SC
+from props import c01_blank
 
 ENGINE = "split"
 RULE = ("streams: T = all token sequences over the 14-token splitter alphabet up to length 4 (quick) / 5 (thorough) plus random "
@@ -13,7 +14,13 @@ RULE = ("streams: T = all token sequences over the 14-token splitter alphabet up
         "@string names and field names are RELATED (identical, differing only in letter case incl. Unicode case pairs, "
         "normalisation forms, prefixes, reserved names), exhaustive over 8 small blocks up to length 3 plus random ones; "
         "K-inc = the same documents fed in pieces through parse_string(text, library=lib), write_string after every step "
-        "(oracle only). distinct = distinct text; "
+        "(oracle only). B / P-B = pieces of text MADE OF or EDGED WITH blank-like characters (props/c01_blank.py): "
+        "slot (value of the first / last / only field, @string value / name, entry key, field name, gap after @type, "
+        "preamble / comment body, free text; closed, unterminated, at the end of the input) x form (0..3 characters of one "
+        "class, an ASCII blank between two of them, a word edged with them) x wrapping (bare, braced, quoted, outside the "
+        "delimiters) x class (ASCII blanks, other isspace, string.whitespace only, splitlines boundaries, invisible but not "
+        "space), every character of every class in every slot; B additionally writes with the empty write stack and parses / "
+        "writes with the empty parse stack (oracle: nothing raises, str comes back). distinct = distinct text; "
         "non-trivial = at least one failed block or >= 2 blocks")
 TRUSTED = ["oracle instance: str.lower restricted to ASCII for the @type text (others skipped for the model comparison, still run "
            "through parse_string/write_string for the no-raise oracle)",
@@ -74,6 +81,8 @@ def generate(rng, tier):
             cases.append({"stream": "P-K", "input": {"text": t, "pipe": 1}})
         if i % 2 == 0:
             cases.append({"stream": "K-inc", "input": {"text": t, "texts": cut_pieces(rng, blocks)}})
+    # B / P-B: text made of or edged with blank-like characters in every slot of a document (props/c01_blank.py)
+    cases.extend(c01_blank.generate(rng, tier))
     return cases
 
 
@@ -255,9 +264,12 @@ def impl(case):
         ok, detail, outs = incremental(texts)
         return {"sx_in": None, "sx_out": None, "oracle": {"ok": ok, "detail": detail}, "nontrivial": len(texts) > 1,
                 "key": "inc:" + "\x1e".join(texts)[:300], "tags": ["incremental"], "summary": repr(outs[-1:])[:160]}
+    blank = case["input"].get("blank")
+    btags = ["blank:slot=" + blank[0], "blank:form=" + blank[1], "blank:wrap=" + blank[2], "blank:class=" + blank[3]] if blank else []
     if case["input"].get("pipe"):
         w = implutil.guarded(lambda: bibtexparser.write_string(bibtexparser.parse_string(text)))
-        rec = {"sx_in": [151, enc.enc_str(text)], "key": "pipe:" + (text if len(text) < 200 else str(hash(text))), "tags": ["pipeline"]}
+        rec = {"sx_in": [151, enc.enc_str(text)], "key": "pipe:" + (text if len(text) < 200 else str(hash(text))),
+               "tags": ["pipeline"] + btags}
         if w[0] == "exc":
             rec["sx_out"] = implutil.r_exc(6 if w[1] not in (5, 9, 99) else w[1])
             rec["oracle"] = {"ok": False, "detail": "write_string(parse_string(text)) raised " + w[2]}
@@ -293,12 +305,30 @@ def impl(case):
         # syntax errors surface only as failed blocks: every block of the split is in the parsed library too
         if ok and len(lib.blocks) != len(r[1].blocks):
             ok, detail = False, "default stack changed the number of blocks: %d -> %d" % (len(r[1].blocks), len(lib.blocks))
+        if ok and blank:
+            ok, detail = other_stacks(text, lib, r[1])
     rec["oracle"] = {"ok": ok, "detail": detail}
     kinds = SC.block_kinds(r[1]) if r[0] == "ok" else ["exc"]
     rec["nontrivial"] = len(kinds) >= 2 or "ParsingFailedBlock" in kinds
     rec["key"] = text if len(text) < 200 else str(hash(text))
-    rec["tags"] = sorted(set(kinds)) or ["empty"]
+    rec["tags"] = (sorted(set(kinds)) or ["empty"]) + btags
     return rec
+
+
+def other_stacks(text, lib, lib0):
+    """stream B: the statement with the EMPTY stacks too.  `lib` = parse_string(text), `lib0` = parse_string(text, parse_stack=[]);
+    writing either of them with the default and with the empty write stack returns a str, nothing raises."""
+    import implutil, bibtexparser
+    for what, fn in (("write_string(parse_string(text), unparse_stack=[])", lambda: bibtexparser.write_string(lib, unparse_stack=[])),
+                     ("write_string(parse_string(text, parse_stack=[]))", lambda: bibtexparser.write_string(lib0)),
+                     ("write_string(parse_string(text, parse_stack=[]), unparse_stack=[])",
+                      lambda: bibtexparser.write_string(lib0, unparse_stack=[]))):
+        w = implutil.guarded(fn)
+        if w[0] == "exc":
+            return False, "%s raised %s" % (what, w[2])
+        if not isinstance(w[1], str):
+            return False, "%s returned %s" % (what, type(w[1]).__name__)
+    return True, ""
 
 
 def shrink(case):
